@@ -31,6 +31,8 @@ def plan(tier, seed):
         shards.append({'name': 'random-%d' % i, 'fn': 'shard_random', 'args': {'part': i, 'parts': nr, 'big': False}})
     shards.append({'name': 'random-boundscheck', 'fn': 'shard_random', 'args': {'part': 0, 'parts': 4 if tier == 'quick' else 2, 'big': False},
                    'env': {'NUMBA_BOUNDSCHECK': '1'}})
+    for i in range(3 if tier == 'quick' else 8):
+        shards.append({'name': 'huge-stratum-rare-classes-%d' % i, 'fn': 'shard_skew', 'args': {'part': i}})
     if tier == 'thorough':
         for i in range(4):
             shards.append({'name': 'big-%d' % i, 'fn': 'shard_random', 'args': {'part': i, 'parts': 4, 'big': True}})
@@ -112,3 +114,29 @@ def shard_random(sh, part, parts, big):
     for t, (cls, n, r) in enumerate(gen.chunks(todo, parts)[part] if parts > 1 else todo):
         Y, X = gen.random_pair(rng, nprng, cls, n)
         observe_pair(sh, est, Y, X, cls, sample=(t % 400 == 0))
+
+
+def shard_skew(sh, part):
+    """Heavily skewed marginals at large n: a stratum of > 10^5 rows in which many classes have probability ~ 1/n
+    (terms of size p*log p with p ~ 1e-6 that an epsilon guard or a float32 underflow would drop)."""
+    import numpy as np
+    est = _estimator()
+    rng, nprng = sh.rng('skew', part), sh.nprng('skew', part)
+    reps = 1 if sh.tier == 'quick' else 3
+    for rep in range(reps):
+        n = rng.choice([130000, 200000, 300000]) if sh.tier == 'quick' else rng.choice([150000, 400000, 1000000])
+        n_rare = rng.choice([500, 1500, 3000])
+        for layout in ('constant-X', 'two-strata', 'giant+small'):
+            Y = np.zeros(n, dtype=np.int32)
+            pos = nprng.choice(n, n_rare, replace=False)
+            Y[pos] = np.arange(1, n_rare + 1, dtype=np.int32)          # n_rare singleton classes inside one giant class
+            if rng.random() < 0.5:
+                Y[nprng.choice(n, n // 3, replace=False)] = n_rare + 1   # a second big class
+            if layout == 'constant-X':
+                X = np.full(n, 3, dtype=np.int32)
+            elif layout == 'two-strata':
+                X = (nprng.random(n) < 0.5).astype(np.int32)
+            else:
+                X = np.zeros(n, dtype=np.int32)
+                X[nprng.choice(n, n // 50, replace=False)] = nprng.integers(1, 6, n // 50)
+            observe_pair(sh, est, Y, X, 'huge-stratum-rare-classes/' + layout, sample=True)
